@@ -45,22 +45,6 @@ theorem NF_anyM {α : Type} (f : α → R Bool) : ∀ (l : List α), (∀ x ∈ 
 
 /-! ### Topological order -/
 
-/-- All tracers of a pytree are below `n`, and there are no nested graphs in it. -/
-def toksLt (n : Nat) (v : List Tok) : Bool :=
-  v.all (fun t => match t with | .ref j => decide (j < n) | .gref _ => false | _ => true)
-
-def App.operands (a : App) : List (List Tok) := a.pre ++ a.args ++ a.kwargs.map (·.2) ++ a.deps
-
-def App.operandsLt (a : App) (n : Nat) : Bool := a.operands.all (toksLt n)
-
-/-- Operands before consumers, no nested graphs (decidable; computed by the driver for every real graph). -/
-def Store.topo (S : Store) : Bool :=
-  (List.range S.nodes.length).all (fun i =>
-    match S.nodes[i]? with
-    | some ⟨_, .app a⟩ => a.operandsLt i
-    | some ⟨_, .proj src _⟩ => decide (src < i)
-    | _ => true)
-
 theorem toksLt_mono {n m : Nat} (h : n ≤ m) (v : List Tok) (hv : toksLt n v = true) : toksLt m v = true := by
   simp only [toksLt, List.all_eq_true] at hv ⊢
   intro t ht
@@ -936,16 +920,6 @@ theorem optTok_nf (pats : List Pattern) (S : Store) (hT : S.topo = true) : ∀ (
                 · exact NF_pure _
                 · exact NF_py _
             · exact NF_unsupported _
-
-/-- The program is a graph over a topologically ordered store without nested graphs (decidable; computed by the driver). -/
-def Prog.topoOK (p : Prog) : Bool :=
-  p.store.topo &&
-    (match p.top with
-     | [.gref k] =>
-       match p.store.graphs[k]? with
-       | some g => toksLt p.store.nodes.length g.output
-       | none => false
-     | _ => false)
 
 /-- `InlineGraph` on the top-level graph forwards the function of a call below the end of the store. -/
 theorem decideInline_lt (S : Store) (hT : S.topo = true) (fuel k : Nat) (g : GraphV) (act : Action) (hg : S.graphs[k]? = some g)
